@@ -217,6 +217,12 @@ type world struct {
 	allCalls int
 	tcCalls  int
 	winCalls []getterCall
+	// several resolutions of one connection field in one request (multi.go): edge set and recorded
+	// application calls per resolution
+	multiE   [][]int
+	multiAll []int
+	multiTC  []int
+	multiWin [][]getterCall
 }
 
 const numPolicies = 5
@@ -227,7 +233,12 @@ var policyNames = []string{"exact", "everything-shuffled", "exact+neighbours-out
 // contains (at least) the first `limit` / last `-limit` edges of the range, no duplicates, only
 // edges of the connection; extra and out-of-order edges are explicitly allowed.
 func (w *world) windowReply(after, before *int, limit int) []int {
-	S := sortedCopy(w.E)
+	return w.windowReplyOn(w.E, after, before, limit)
+}
+
+// windowReplyOn: the reply over the edge set E (several resolutions of one request have their own).
+func (w *world) windowReplyOn(E []int, after, before *int, limit int) []int {
+	S := sortedCopy(E)
 	var in []int
 	for _, c := range S {
 		if (after == nil || *after < c) && (before == nil || c < *before) {
@@ -246,7 +257,7 @@ func (w *world) windowReply(after, before *int, limit int) []int {
 	case 0:
 		return exact
 	case 1:
-		all := append([]int{}, w.E...)
+		all := append([]int{}, E...)
 		hx.Shuffle(r, all)
 		return all
 	case 2:
@@ -489,6 +500,7 @@ func newWorld() *world {
 			w.addCustom(cfg)
 			w.addPlain(cfg)
 		}
+		w.addMultiFields(cfg, "M")
 		api, err := apifu.NewAPI(cfg)
 		if err != nil {
 			panic(err)
